@@ -12,11 +12,15 @@
    Hypotheses beside the (1+d) laws: the leading coefficient of v is not zero; the dividend's coefficients belong to
    the set F of floating-point numbers; results of -, *, / are in F and 0 + x = x + 0 = x - 0 = x for x in F (true of
    every correctly rounded arithmetic; discharged for 53-bit round-to-nearest-even in Proofs/Round2PolyB.v).
-   Unproved remainder: the statements are about the standard model, not about binary64 itself (no overflow/underflow
-   analysis of [polydiv] at the primitive floats).
+   (c) polydiv_rounded_identity_float: the first bound for the PRIMITIVE-FLOAT instance itself ([polydiv] at AF, IEEE
+   binary64, u = 2^-53), through Flocq: whenever every state of the run is finite and no quotient r_top / v_top and no
+   product c * v_j of the run underflows ([pd_ok], a condition on computable values of the run).
+   Unproved remainder: (a), (b) assume the standard model; (c) says nothing when a kept value of the run overflows or a
+   quotient / product falls into the subnormal range (the absolute error of gradual underflow is not analysed).
    ====================================================================================================== *)
-From Coq Require Import List Reals Lra Lia.
-From OV Require Import Base.Panic Base.Arith Base.RoundModel Model.Poly Proofs.RoundFlx Proofs.Round2Poly Proofs.Round2PolyB.
+From Coq Require Import List Reals Lra Lia Floats.
+From OV Require Import Base.Panic Base.Arith Base.RoundModel gen.Params Model.Poly Inst.FloatInst Proofs.PolyDiv Proofs.RoundFlx
+  Proofs.ComplexRound Proofs.RoundDotFloat Proofs.Round2Poly Proofs.Round2PolyB.
 Import ListNotations.
 
 Theorem polydiv_rounded_identity : forall (u : R), (0 <= u < 1)%R ->
@@ -123,4 +127,38 @@ Example polydiv_rounded_residual_nonvacuous :   (* same instance and division as
 Proof.
   split; [exact ux_range|]. split; [cbn; lra|]. split; [repeat constructor; exact Fx_1|].
   split; [cbn [length Nat.add Nat.sub Nat.mul Nat.min INR]; pose proof ux_small; lra|exact ex_polydiv].
+Qed.
+
+(* the same for the primitive floats themselves (IEEE binary64, u64 = 2^-53, g64 n = gam u64 n), through Flocq *)
+Theorem polydiv_rounded_identity_float : forall (a v q r : list PrimFloat.float),
+  polydiv (A := AF) a v = Ok (inl (q, r)) -> FR (last v 0%float) <> 0%R ->
+  pd_ok (S POLYDIV_MAX) [] a v ->
+  (INR (2 * Nat.min (length a + 1 - length v) (length v)) * u64 < 1)%R ->
+  forall k : nat,
+  (Rabs (FR (nth k a 0%float) - Rsum (S k) (fun i => FR (nth i q 0%float) * FR (nth (k - i) v 0%float))
+         - FR (nth k r 0%float))
+     <= g64 (2 * Nat.min (length a + 1 - length v) (length v))
+        * (Rabs (FR (nth k a 0%float))
+           + Rsum (S k) (fun i => Rabs (FR (nth i q 0%float)) * Rabs (FR (nth (k - i) v 0%float)))))%R.
+Proof. intros a v q r E Hv P Hn. exact (polydiv_rounded_identity_float_lemma a v q r E Hv P Hn). Qed.
+Check polydiv_rounded_identity_float : forall (a v q r : list PrimFloat.float),
+  polydiv (A := AF) a v = Ok (inl (q, r)) -> FR (last v 0%float) <> 0%R ->
+  pd_ok (S POLYDIV_MAX) [] a v ->
+  (INR (2 * Nat.min (length a + 1 - length v) (length v)) * u64 < 1)%R ->
+  forall k : nat,
+  (Rabs (FR (nth k a 0%float) - Rsum (S k) (fun i => FR (nth i q 0%float) * FR (nth (k - i) v 0%float))
+         - FR (nth k r 0%float))
+     <= g64 (2 * Nat.min (length a + 1 - length v) (length v))
+        * (Rabs (FR (nth k a 0%float))
+           + Rsum (S k) (fun i => Rabs (FR (nth i q 0%float)) * Rabs (FR (nth (k - i) v 0%float)))))%R.
+Print Assumptions polydiv_rounded_identity_float.
+Print Assumptions polydiv_zero_divisor_lemma.   (* closed; ends the listing of float primitives above for the driver's parser *)
+(* (1 + x + x^2) / (1 + 3x) at binary64: two passes, quotient coefficients fl(fl(1 - fl(1/3)) / 3) and fl(1/3) < 1/3 *)
+Example polydiv_rounded_identity_float_nonvacuous :
+  polydiv (A := AF) exf_a exf_v = Ok (inl (exf_q, exf_r)) /\ FR (last exf_v 0%float) <> 0%R /\
+  pd_ok (S POLYDIV_MAX) [] exf_a exf_v /\
+  (INR (2 * Nat.min (length exf_a + 1 - length exf_v) (length exf_v)) * u64 < 1)%R /\
+  (FR (nth 1 exf_q 0%float) < 1 / 3)%R.
+Proof.
+  split; [exact exf_polydiv|]. split; [exact exf_lead|]. split; [exact exf_pd_ok|]. split; [exact exf_size|exact exf_q_inexact].
 Qed.
